@@ -1,0 +1,36 @@
+//go:build verif
+// +build verif
+
+package policy
+
+import (
+	corev1Lister "k8s.io/client-go/listers/core/v1"
+	networkingv1Lister "k8s.io/client-go/listers/networking/v1"
+	"k8s.io/client-go/tools/cache"
+	"tkestack.io/galaxy/pkg/utils/ipset"
+	utiliptables "tkestack.io/galaxy/pkg/utils/iptables"
+)
+
+// VerifNew builds a PolicyManager around the given ipset/iptables handles and listers instead of exec-backed
+// handles and informers started from a client. The pod informer factory is marked as started.
+func VerifNew(ipsetHandle ipset.Interface, iptableHandle utiliptables.Interface, hostName string,
+	podInformer cache.SharedIndexInformer, podLister corev1Lister.PodLister,
+	namespaceLister corev1Lister.NamespaceLister, policyLister networkingv1Lister.NetworkPolicyLister) *PolicyManager {
+	pm := &PolicyManager{
+		ipsetHandle:       ipsetHandle,
+		iptableHandle:     iptableHandle,
+		hostName:          hostName,
+		podCachedInformer: podInformer,
+		podLister:         podLister,
+		namespaceLister:   namespaceLister,
+		policyLister:      policyLister,
+		quitChan:          make(chan struct{}),
+	}
+	pm.podInformerOnce.Do(func() {})
+	return pm
+}
+
+// VerifSyncPolicies, VerifSyncRules and VerifSyncPods are the three passes of a synchronisation.
+func (p *PolicyManager) VerifSyncPolicies() { p.syncNetworkPolices() }
+func (p *PolicyManager) VerifSyncRules()    { p.syncNetworkPolicyRules() }
+func (p *PolicyManager) VerifSyncPods()     { p.syncPods() }
